@@ -65,7 +65,7 @@ def _classify(ctx, r, mode, env, lockstep, dist, distinct):
         dist["producers"][m.group(1)] = dist["producers"].get(m.group(1), 0) + 1
     if mode.startswith("stall"):
         dist["stall_polls"] = dist.get("stall_polls", 0) + nrepoll
-    if ncasfail > 0 or nref > 0 or nrepoll > 0:
+    if ncasfail > 0 or nref > 0 or nrepoll > 0 or mode.startswith("wrap"):
         distinct.add(sha("\n".join(l for l in lines if " ev stats" not in l)))
     text = "mode=%s seed=%d env=%s\n%s\n%s" % (mode, r["seed"], env, hdr, "\n".join(lines[-600:]))
     if r["oracle"]:
@@ -105,6 +105,7 @@ def run(ctx):
         "vrt/vrt.cpp (TSan-ABI interposition, deterministic scheduler, futex/mutex/condvar emulation, virtual time) and the TSan-instrumented build (differs from production in the places listed in DESIGN 3.3)",
         "executions are sequentially consistent interleavings at atomic-operation granularity; the memory orders of the `_events` protocol are tied statically (generated skeleton / order obligations) and dynamically (the order is part of every replayed trace line); weak-memory reorderings are not simulated for this property",
         "the bounded queue is replaced by its specification Q1-Q3 stated at the top of lean/Babylon/ExecQ/Model.lean (indices handed out once in order; publish after the index, blocked while index >= head + capacity; the non-blocking batch pop removes a non-empty published prefix or returns 0 only when the head index is unpublished; values delivered are the values published) — C01's planned theorems, here an assumption checked on every replayed trace through the queue's index / slot-version lines",
+        "no overflow of `_events`: the theorems range over executions with fewer than 2^evBits signals during one consumer activation (evBits = 64 pinned by gen_events_width; necessary for a narrow counter, see eq_events_wrap_counterexample)",
         "executor contract: invoke() returning 0 means the function runs exactly once later (inline or on another thread), non-zero means it never runs; C07 covers the real executors",
     ]
     ctx.gen(["execq"])
@@ -134,7 +135,7 @@ def run(ctx):
     nst = 4 if ctx.quick else 40
     if ctx.broken:
         nst *= 3
-    plan = [("stall-inline", nst, {}), ("stall-pool", nst, {})] + [(m, n, {}) for m in MODES] + [("inline", n // 2, {"VRT_STRATEGY": "pct"}), ("fault-pool", n // 2, {"VRT_STRATEGY": "pct"}),
+    plan = [("stall-inline", nst, {}), ("stall-pool", nst, {}), ("wrap-inline", 2 * nst, {}), ("wrap-pool", 2 * nst, {})] + [(m, n, {}) for m in MODES] + [("inline", n // 2, {"VRT_STRATEGY": "pct"}), ("fault-pool", n // 2, {"VRT_STRATEGY": "pct"}),
                                           ("fault-inline", n // 2, {"VRT_STICK": "0"})]
     for mode, cnt, env in plan:
         runs = ctx.econc(exe, drv, [mode], seed0, cnt, env=_env(mode, env))
@@ -151,7 +152,8 @@ def run(ctx):
                        "ThreadPoolExecutor with 1-2 workers | either behind a fault injector whose invoke fails per a PRNG bit-string of 1-8 bits with density 1/4-3/4, "
                        "refused callers re-signal after 0-2 yields; plus the directed modes stall-inline / stall-pool: producer A parked between claiming its index and "
                        "publishing it (blocking copy assignment of the item) for 1200 virtual ms = at least 1200 consumer polls while producer B publishes and signals behind it and a "
-                       "third thread joins after B's execute returned) under one seeded schedule (random with 5 stickiness levels, PCT, or stickiness 0); "
+                       "third thread joins after B's execute returned; and wrap-inline / wrap-pool: `_events` preset to 2^32 - k (k = 1-4) while the first consumer is held inside the consume "
+                       "function, k signals and one more execute — a counter narrower than 64 bits overflows and launches a second consumer) under one seeded schedule (random with 5 stickiness levels, PCT, or stickiness 0); "
                        "non-trivial = the trace contains a failed CAS on _events (a producer's signal interfered with the consumer's exit decision or with a roll-back) "
                        "or at least one injected refusal, or the consumer polled empty while an index was handed out but unpublished (the re-poll branch of repair 0c66556); "
                        "distinct by trace hash")
